@@ -102,6 +102,7 @@ type BackendConn struct {
 	Outstanding map[int16]bool
 	Frames      int
 	authPending bool
+	stalled     [][]byte
 }
 
 func (n *Node) supports(v primitive.ProtocolVersion) bool {
@@ -190,6 +191,12 @@ func (c *BackendConn) Reset(why string) {
 func (c *BackendConn) handle(raw []byte) {
 	w := c.Node.w
 	n := c.Node
+	if n.Stalled {
+		// a stalled node reads nothing: the frame waits until the stall ends (or the connection dies)
+		c.stalled = append(c.stalled, raw)
+		w.Stat("backend.stalled_frame")
+		return
+	}
 	frm, err := decodeFrame(c.Compression, raw)
 	if err != nil {
 		// A frame from the proxy that the reference codec cannot decode is always a finding
@@ -201,10 +208,6 @@ func (c *BackendConn) handle(raw []byte) {
 	}
 	hdr := frm.Header
 	stream := hdr.StreamId
-	if n.Stalled {
-		w.Logf("backend %s: swallowed %s (stalled)", c, hdr.OpCode)
-		return
-	}
 	switch msg := frm.Body.Message.(type) {
 	case *message.Options:
 		w.Stat("backend.options")
@@ -494,6 +497,22 @@ func (n *Node) Crash() {
 		c.Reset("node crash")
 	}
 	n.w.Logf("node %s: CRASH", n)
+}
+
+// Unstall ends a stall: the frames that arrived meanwhile are processed now.
+func (n *Node) Unstall() {
+	n.Stalled = false
+	n.w.Logf("node %s: stall ends", n)
+	for _, c := range append([]*BackendConn(nil), n.Conns...) {
+		q := c.stalled
+		c.stalled = nil
+		for _, raw := range q {
+			if c.Closed || c.Link.IsReset() {
+				break
+			}
+			c.handle(raw)
+		}
+	}
 }
 
 // Restart brings the node back with an empty prepared-statement set.
